@@ -21,11 +21,11 @@ YOUR TASK: make ONE realistic, small change to the library source under {wt}/csv
 
 How to run things (no network is available):
 - Python is /venv/bin/python. Run from the worktree root so that `import csvpath` resolves to the worktree copy: `cd {wt} && /venv/bin/python -c "import csvpath; print(csvpath.__file__)"` must print a path under {wt}.
-- The test suite: `cd {wt} && /venv/bin/python -m pytest -q -p no:cacheprovider -x --timeout=900 <paths>`; the full suite takes about 11 minutes (`tests/`). 69 tests fail even on the unchanged tree because they need a network service (OpenLineage listeners configured in config/config.ini) - those do not count. Everything that passes on the unchanged tree must still pass with your change: run the test files that touch the code you changed first, and then the full suite once (compare the set of failing tests with a run on the unchanged tree: `git stash` / `git stash pop`, or simply compare against this list of expected failures: every failure must be in tests/examples/, tests/managers/test_data_readers.py, tests/managers/test_files_manager.py, tests/managers/test_paths_manager.py, tests/managers/test_results_manager.py, tests/productions/test_references.py, tests/test_cache.py::test_cache_files, tests/test_comments.py::test_comment_settings_affecting_multiple_paths, tests/test_csvpaths.py, tests/test_csvpaths_coordinator_functions.py, tests/test_single_from_group.py, tests/test_xlsx.py, tests/functions/test_error.py, test_import2/3, test_new_in5/7, test_jinja_get_tokens, test_metaphone2, test_function_now, three tests in tests/functions/test_print.py).
+- The test suite: `cd {wt} && /venv/bin/python -m pytest -q -p no:cacheprovider -x --timeout=900 <paths>`; the full suite takes about 11 minutes (`tests/`). 69 tests fail even on the unchanged tree because they need a network service (OpenLineage listeners configured in config/config.ini) - those do not count. Everything that passes on the unchanged tree must still pass with your change: run the test files that touch the code you changed first, and then the full suite once (compare the set of failing tests against this list of expected failures - do NOT use `git stash`: the stash is shared between all worktrees of this repository and other people are working in sibling worktrees; to toggle your change use `git diff -- csvpath > /tmp/<your-id>.diff`, `git apply -R /tmp/<your-id>.diff` and `git apply /tmp/<your-id>.diff`: every failure must be in tests/examples/, tests/managers/test_data_readers.py, tests/managers/test_files_manager.py, tests/managers/test_paths_manager.py, tests/managers/test_results_manager.py, tests/productions/test_references.py, tests/test_cache.py::test_cache_files, tests/test_comments.py::test_comment_settings_affecting_multiple_paths, tests/test_csvpaths.py, tests/test_csvpaths_coordinator_functions.py, tests/test_single_from_group.py, tests/test_xlsx.py, tests/functions/test_error.py, test_import2/3, test_new_in5/7, test_jinja_get_tokens, test_metaphone2, test_function_now, three tests in tests/functions/test_print.py).
 - If you need CsvPaths (the multi-path manager) in your demonstration, run your demo from a scratch directory containing a `config/config.ini` copied from {wt}/config/config.ini with the whole `[listeners]` section removed and `[config] path =` left empty, and put {wt} first on sys.path; that makes CsvPaths work offline.
 
 DELIVERABLES, all inside {wt}/seeded/ (create the directory):
 1. patch.diff - output of `git -C {wt} diff -- csvpath` (the source change only).
 2. demo.py - a small stand-alone program (it may create temporary files/directories under a tempfile directory and must clean up) that exits 0 and prints PASS on the UNCHANGED library and exits 1 and prints FAIL with your change applied. It must put {wt} first on sys.path (sys.path.insert(0, '{wt}')).
 3. notes.md - 5-10 lines: what you changed, why it breaks the property, what specifically is needed for it to manifest, and which test commands you ran with their pass/fail counts.
-Verify both directions yourself (with the change: demo FAILS; after `git stash`: demo PASSES; then `git stash pop` so the change is left applied in the worktree). Report back briefly: the change, what it needs to manifest, and the test results.""")
+Verify both directions yourself (with the change: demo FAILS; with the change reversed by `git apply -R`: demo PASSES; then re-apply it so the change is left applied in the worktree). Never use `git stash`. Report back briefly: the change, what it needs to manifest, and the test results.""")
